@@ -25,6 +25,7 @@ EXPLANATION = (
     "handed to the connection, on every exceptional exit of a connect phase, and after disconnect() has closed the "
     "connection unless it was already replaced (disjunctive path analysis). Decides the structural conditions; multi-session "
     "histories as behaviour are not decided."
+    ' Also: nothing between closing and forgetting the connection can raise by itself; with a connection installed every path of disconnect() closes it.'
 )
 ASSUMPTIONS = ["C07 (the stop callback fires iff the session was established)", "C08.R5 (connection-level write gate)", "M1-M5 of DESIGN.md section 2"]
 
